@@ -28,12 +28,20 @@ Proof. exact track_events_pairs. Qed.
 Theorem C07_events_ordered : forall rows, me_sorted (track_events rows).
 Proof. exact track_events_sorted. Qed.
 
-(* tick positions are exact whenever every onset and end is a whole number of ticks
-   (the truncation int(delta * 480) is per delta; the running sum is the exact position) *)
-Theorem C07_ticks_exact : forall tpq l, 0 < tpq -> forall prev, on_grid tpq prev ->
-  Forall (fun e => on_grid tpq (me_time e)) l ->
-  abs_times (prev * TPB / tpq) (with_deltas tpq prev l) = map (fun e => me_time e * TPB / tpq) l.
+(* tick positions: the deltas written for a track add up, for EVERY event, to the truncated exact position (int(time * 480)):
+   no rounding error accumulates ... *)
+Theorem C07_ticks_floor : forall tpq l last,
+  abs_times last (with_deltas tpq last l) = map (fun e => tick_of tpq (me_time e)) l.
+Proof. exact ticks_floor. Qed.
+
+(* ... so an event whose time is a whole number of ticks is written exactly there, whatever the other events of the score are,
+   and any other event less than one tick early *)
+Theorem C07_ticks_exact : forall tpq l last j e, 0 < tpq -> nth_error l j = Some e -> on_grid tpq (me_time e) ->
+  exists x, nth_error (abs_times last (with_deltas tpq last l)) j = Some x /\ x * tpq = me_time e * TPB.
 Proof. exact ticks_exact. Qed.
+
+Theorem C07_ticks_close : forall tpq t, 0 < tpq -> tick_of tpq t * tpq <= t * TPB < (tick_of tpq t + 1) * tpq.
+Proof. exact tick_close. Qed.
 
 (* parts are grouped into one track per General MIDI program (drum parts together) *)
 Theorem C07_grouping : forall names t1 t2, (t1 < length names)%nat -> (t2 < length names)%nat ->
